@@ -503,8 +503,8 @@ fn msg_att_envelope(i: &[u8]) -> IResult<&[u8], AttributeValue> {
 
 fn msg_att_internal_date(i: &[u8]) -> IResult<&[u8], AttributeValue> {
     map(
-        preceded(tag_no_case("INTERNALDATE "), nstring_utf8),
-        |date| AttributeValue::InternalDate(Cow::Borrowed(date.unwrap())),
+        preceded(tag_no_case("INTERNALDATE "), string_utf8),
+        |date| AttributeValue::InternalDate(Cow::Borrowed(date)),
     )(i)
 }
 
